@@ -221,6 +221,8 @@ def check(model, rep):
     if not any(i.rule == 'C02.order' for i in rep.instances):
         rep.holds('C02.order', 'all instants', f'{len(ins)} instant contexts: no stale read of any attribute or of the time axis')
     check_recorder(model, rep)
+    from sa.forwarding import check_forwarding
+    check_forwarding(model, rep, 'C02.forwarding', ('torque', 'driving_torque', 'load_torque', 'master_gear_ratio', 'master_gear_efficiency', 'external_torque', 'angular_position', 'angular_speed'))
     # the motor's driving torque must be the documented characteristic: the law extracted by C08's rules
     from sa.core import Report
     from checks import c08
